@@ -226,15 +226,18 @@ TB = ("Trusted: Coq 8.16.1 kernel (vm_compute, no native_compute), no axioms (Pr
 
 MANIFEST = dict(
     text="Theorems about an executable Gallina model of arc::from_bytes (written with the bin-archive stream model): for every archive that "
-         "satisfies the layout relation arc_layout (Count label on exactly one address holding the number of files, Info label on exactly one "
-         "address followed by records (string cell, index, size, offset), body i = data[offset + pad, + size) with pad = 0x60 iff the first "
-         "word of the data is 0, names distinct) extraction returns exactly the packed files - any record order, any body placement, padded "
-         "header or not, empty bodies; the four error theorems (no Count, no Info, record without a string, range leaving the data region); "
+         "satisfies the layout relation arc_layout (Count / Info looked up as the repaired code does: the LOWEST address whose bucket holds the "
+         "label - with the label on one address, that address; the Count word = number of files; at the Info address records (string cell, "
+         "index, size, offset); body i = data[offset + pad, + size) with pad = 0x60 iff the first word of the data is 0 - the detection rule of "
+         "arc.rs:23, not '0x60 zero bytes'; an empty range is the empty body wherever it points; names distinct) extraction returns exactly the packed files - any record order, any body placement, padded "
+         "header or not, empty bodies; the error theorems (no Count, no Info, record without a string, ANY record of a readable table whose non-empty range leaves the data region, "
+         "offset + padding beyond u32, Count larger than the records that fit), each with an Example obtained through the theorem; "
          "no panic and no fuel exhaustion on ANY archive in both arithmetic modes. Model tied to /repo on every run by the extracted model vs "
          "the real library on images from a Python arc writer with layout knobs and error variants (debug and release), results compared as "
          "sorted maps with the file set the image was built from.",
-    note=TB + "Byte level: C16_extract_from_file (every file conforming to C01's format relation with an arc-shaped content is extracted exactly; "
-              "proved from C01's parser correctness, Proofs/TextBinBridge.v + ArcBytes.v); the other theorems speak about the parsed archive. "
-              "Modelled, not verified: HashMap, Vec (A-std), encoding_rs for names (A-codec). Repaired defect: F9 bc4a741.",
+    note=TB + "Byte level: C16_file_reads_content (on every file conforming to C01's format relation arc::from_bytes is the archive-level reader on the "
+              "file's content - no uniqueness of the labels needed after the repair 10408e9), so every theorem speaks about files; "
+              "proved from C01's parser correctness, Proofs/TextBinBridge.v + ArcBytes.v. "
+              "Modelled, not verified: HashMap, Vec (A-std), encoding_rs for names (A-codec). Repaired defects: F9 bc4a741, F22 10408e9 (find_label_address = lowest address).",
     technique="Coq proof (induction over the record list with the cursor invariant pos = info + 16 i; block-read lemma) + extracted-model differential check",
     ref="DESIGN.md section 6 (C16)")
